@@ -19,7 +19,7 @@ from cfg import cfg_of
 
 META = {
     'level': 'other',
-    'decides': 'that the notification is control-dependent on the instruction having completed, is sent exactly once per completed SELFDESTRUCT, and takes its arguments from the interpreter, the pre-read stack top and (under freshness evidence) the new journal entry',
+    'decides': 'that the notification is control-dependent on the instruction having completed, is sent exactly once per completed SELFDESTRUCT, and takes its arguments from the interpreter, the pre-read stack top and (under freshness evidence) the new journal entry; that JournaledState::selfdestruct journals an entry carrying the balance exactly when balance leaves the contract, and journals nothing after it',
     'does_not_decide': 'inspector-internal bookkeeping; the balance recorded by JournaledState::selfdestruct itself (C06/C08)',
     'explanation': 'Path enumeration of the wrapper closure; literals on instruction_result and on journal lengths; order of events relative to the wrapped instruction; origins of the hook arguments.',
 }
